@@ -9,6 +9,7 @@ Values and types
   Comps    list of components (List BytesPy.Comp: int | None | tzinfo)
   Date     `datetime.date` as its ordinal (Int)   TD       `timedelta(days=n)` as the day count (Int)
   Off      tzinfo (IsoT.Off)                      Value    aware/naive datetime (IsoT.Value)
+  Time     `datetime.time` as its validated component list
   Match    result of `_FRACTION_REGEX.match`      tuples of the above
 
 Expressions: int literals, names, `+ - * // % **`, `len(x)`, slices `x[a:b]`, `x[a:]`, `x[:b]` (Python
@@ -41,7 +42,7 @@ from translate import Untranslatable, find_function
 ERRS = {"ValueError", "IndexError", "OverflowError", "TypeError"}
 LEAN_TY = {"Int": "Int", "Bool": "Bool", "Bytes": "BytesPy.Bytes", "OptBytes": "Option BytesPy.Bytes",
            "Comps": "List BytesPy.Comp", "Comp": "BytesPy.Comp", "Date": "Int", "TD": "Int", "Off": "IsoT.Off",
-           "Value": "IsoT.Value", "Match": "Option (BytesPy.Bytes × BytesPy.Bytes)"}
+           "Value": "IsoT.Value", "Match": "Option (BytesPy.Bytes × BytesPy.Bytes)", "Time": "List BytesPy.Comp"}
 DEFAULT = {"Int": "0", "Bool": "false", "Bytes": "[]", "Comps": "[]", "Date": "0", "TD": "0",
            "Off": "IsoT.Off.utc", "Match": "none", "Comp": "BytesPy.Comp.none"}
 
@@ -271,6 +272,12 @@ class BTr:
             if name == "timedelta" and not e.args and len(e.keywords) == 1 and e.keywords[0].arg == "days":
                 b, t, ty = self.expr(e.keywords[0].value)
                 return b, self.as_int(t, ty), "TD"
+            if name in ("date", "time") and len(e.args) == 1 and isinstance(e.args[0], ast.Starred) and not e.keywords:
+                b, t, ty = self.expr(e.args[0].value)
+                if ty != "Comps": raise Untranslatable("%s(*%s)" % (name, ty))
+                n = self.fresh()
+                rt = "Date" if name == "date" else "Time"
+                return b + [(n, "BytesPy.%sStar %s" % (name, t), rt)], n, rt
             if name == "datetime" and len(e.args) == 1 and isinstance(e.args[0], ast.Starred):
                 b, t, ty = self.expr(e.args[0].value)
                 if ty != "Comps": raise Untranslatable("datetime(*%s)" % ty)
@@ -316,8 +323,10 @@ class BTr:
         formals = [a.arg for a in fn.args.args if a.arg != "self"]
         defaults = fn.args.defaults
         actual = list(e.args)
-        if e.keywords:
-            raise Untranslatable("keyword arguments in call to %s" % sp.qualname)
+        for kw in e.keywords:
+            if kw.arg is None or kw.arg not in formals or formals.index(kw.arg) != len(actual):
+                raise Untranslatable("keyword arguments in call to %s" % sp.qualname)
+            actual.append(kw.value)
         if len(actual) < len(formals):
             missing = len(formals) - len(actual)
             if missing > len(defaults): raise Untranslatable("arity of %s" % sp.qualname)
@@ -690,6 +699,10 @@ ISO_SPECS = [
     BFn("isoparser._parse_isodate", "parseIsodate", [("dt_str", "Bytes")], ("Comps", "Int")),
     BFn("isoparser._parse_isotime", "parseIsotime", [("timestr", "Bytes")], "Comps", fuel=8),
     BFn("isoparser.isoparse", "isoparse", [("dt_str", "Bytes")], "Value", self_attrs={"_sep": "OptBytes"}),
+    # the three thin public wrappers (bodies only; the `@_takes_ascii` decorator is hand-modelled)
+    BFn("isoparser.parse_isodate", "parseIsodateEntry", [("datestr", "Bytes")], "Date"),
+    BFn("isoparser.parse_isotime", "parseIsotimeEntry", [("timestr", "Bytes")], "Time"),
+    BFn("isoparser.parse_tzstr", "parseTzstrEntry", [("tzstr", "Bytes"), ("zero_as_utc", "Bool")], "Off"),
 ]
 
 if __name__ == "__main__":
